@@ -129,7 +129,7 @@ def _run_conc(case):
 
     def make_bodies(s):
         fs = SimFS()
-        env.bf3file.open = fs.open
+        env.use_fs(fs)
 
         def body(i):
             def fn():
@@ -184,7 +184,7 @@ def run(case):
     out = Outcome()
     fs = SimFS()
     env.restore_registry()
-    env.bf3file.open = fs.open
+    env.use_fs(fs)
     kind = case["kind"]
     name = "dev.bec2" if kind == "bec2" else "fw.bf3"
     state = {"calls": 0, "fail_at": None, "fired": 0}
@@ -198,14 +198,14 @@ def run(case):
             # dry run on a scratch medium to count the cipher calls of this write
             env.crypto.register_AES128(make_faulty(env.REAL_AES, state))
             fs0 = SimFS()
-            env.bf3file.open = fs0.open
+            env.use_fs(fs0)
             try:
                 files.write_file(case, fs0, env, name)
             except Exception as e:
                 out.ev("dry-write-failed", type(e).__name__)
                 return out
             finally:
-                env.bf3file.open = fs.open
+                env.use_fs(fs)
             ncalls = state["calls"]
             state.update(calls=0, fail_at=1 + int(case["fail_frac"] * ncalls) if ncalls else 1, fired=0)
             env.crypto.register_AES128(make_faulty(env.REAL_AES, state))
@@ -259,7 +259,7 @@ def run(case):
             return out
         # ---- the file exists: stored bytes must be RefAES ciphertext ----
         env.restore_registry()
-        env.bf3file.open = fs.open
+        env.use_fs(fs)
         head, binary = files.binary_of(w.durable)
         regions, info = refdir.walk(binary)
         import hashlib
